@@ -168,6 +168,12 @@ MUTANTS = [
  ("c03-flag-reset-form", "C03", "", "css/validation/validation.go", "\t\t\tvar declarationPrelude []Token\n\t\t\tfor i, part := range pa.SplitOnComma(declaration.Prelude) {\n\t\t\t\tif i != 0 {\n\t\t\t\t\tdeclarationPrelude = append(declarationPrelude, pa.NewLiteral(\",\", pos11))\n\t\t\t\t}\n\t\t\t\thasNesting := false\n", "\t\t\tvar (\n\t\t\t\tdeclarationPrelude []Token\n\t\t\t\thasNesting         bool\n\t\t\t)\n\t\t\tfor i, part := range pa.SplitOnComma(declaration.Prelude) {\n\t\t\t\thasNesting = false\n\t\t\t\tif i != 0 {\n\t\t\t\t\tdeclarationPrelude = append(declarationPrelude, pa.NewLiteral(\",\", pos11))\n\t\t\t\t}\n"),
  ("c16-sort-unstable-again", "C16", "C16.R13", "html/layout/grid.go", "sort.SliceStable(children, func(i, j int) bool { return children[i].Box().Style.GetOrder()", "sort.Slice(children, func(i, j int) bool { return children[i].Box().Style.GetOrder()"),
  ("c01-nilcheck-dropped", "C01", "C01.R33", "svg/elements.go", "\t\tif intrinsicRatio == nil { // default object size\n\t\t\tintrinsicHeight = pr.Float(150)\n\t\t} else {\n\t\t\tintrinsicHeight = intrinsicWidth.V() / intrinsicRatio.V()\n\t\t}\n", "\t\tintrinsicHeight = intrinsicWidth.V() / intrinsicRatio.V()\n"),
+ # --- batch 13: behaviour-preserving forms
+ ("c10-lastinflow-index-form", "C10", "", "html/layout/blocks.go", "\tfor _, previousChild := range reversedBoxes(newChildren) {\n\t\tif previousChild.Box().IsInNormalFlow() {\n\t\t\tlastInFlowChild = previousChild\n\t\t\tbreak\n\t\t}\n\t}\n\tcollapsingThrough := false", "\tfor k := len(newChildren) - 1; k >= 0; k-- {\n\t\tif newChildren[k].Box().IsInNormalFlow() {\n\t\t\tlastInFlowChild = newChildren[k]\n\t\t\tbreak\n\t\t}\n\t}\n\tcollapsingThrough := false"),
+ ("c18-path-make-copy", "C18", "", "svg/elements_path.go", "\treturn append([]pathItem(nil), c.path...), nil\n", "\tout := make([]pathItem, len(c.path))\n\tcopy(out, c.path)\n\treturn out, nil\n"),
+ ("c07-year-d4", "C07", "", "utils/html.go", "`(?P<year>\\d\\d\\d\\d)` +", "`(?P<year>\\d{4})` +"),
+ ("c07-year-unbounded", "C07", "C07.R14", "utils/html.go", "`(?P<year>\\d\\d\\d\\d)` +", "`(?P<year>\\d+)` +"),
+ ("c02-fixedheight-page", "C02", "C02.R15", "html/layout/blocks.go", "if overflows(box.PositionY+box.Height.V(), positionY) {", "if context.overflowsPage(box.PositionY+box.Height.V(), positionY) {"),
 ]
 
 def main():
